@@ -7,6 +7,9 @@ CLAIMED = {
  'C16': dict(cat='proof', tech='Coq proof of refinement (invariant by induction over histories) + extracted-model correspondence',
    text='map_refines: for every operation history and every hash function the open-addressing table of map.c (model) is a finite map, probes terminate, load invariant holds; scope_innermost: every lookup in any history of scope operations yields the innermost binding, tags and ordinary names independent. Model tied to map.c/scope.c by slot-exact differential runs and to the compiler by generated units.',
    note='Trusted: Coq kernel, extraction (ExtrOcamlBasic), the harness; map.c/scope.c correspond to the model by testing, not proof; clients of the tables in decl.c/pp.c/qbe.c only exercised through the CLI.'),
+ 'C15': dict(cat='proof', tech='Coq proofs (AVL invariant by induction over insertions, Fibonacci height bound, ladder correctness) + shape-exact correspondence',
+   text='avl_inv: for every insertion sequence tree.c (model) keeps a strict search tree, AVL balance and exact stored heights; new flag = key absent; balanced height h needs fib(h+2)-1 nodes, so the path array (MAXH) never overflows and the emitted ladder is logarithmic; convert_canonical + casesearch_correct + switch_correct: after the conversion to the promoted type the comparison ladder reaches exactly the matching case, else default, and duplicates after conversion are diagnosed. Model tied to tree.c by all 46233 insertion orders of <= 8 keys (shape/height/flag exact) and long random sequences, and to the compiler by generated switch units whose emitted ladders are parsed and evaluated on keys, neighbours and type limits for all three targets.',
+   note='Trusted: Coq kernel, extraction, the Python ladder parser/evaluator and C-semantics oracle (cross-checked with gcc); tree.c/qbe.c correspond to the model by testing; statement-level placement of case labels (stmt.c) exercised through the CLI only.'),
  'C20': dict(cat='proof', tech='Coq-checked purity obligation over lists regenerated from the source + perturbation correspondence',
    text='PARTIAL. Theorem C20_no_environment_source is re-proved on every run against lists regenerated from /repo (libc imports of the hooks-off binary, every format string, every function that walks a hash table): no environment/time/pid/locale/random source, no %p, no table-order dependent emission. The run-time half (uninitialised reads, allocator/ASLR dependence) is carried by byte-exact comparison of all corpus and generated inputs under 13 perturbations, MALLOC_PERTURB_, ASLR off and valgrind on a sample; a broken obligation triggers an ltrace-guided search for the variable read.',
    note='Trusted: the translator gen/c20_purity.py (nm -D, regex), libc determinism in the C locale. Not proved: absence of uninitialised reads in the C heap (run-time observation only).'),
